@@ -17,7 +17,7 @@ GUARDS = [dict(note='component_found', min=1, why='some explored path must repor
           dict(note='rejected', min=1, why='a threshold above every statistic must be rejected on some path')]
 ASSUMPTIONS = ['data: enumerated integer-valued stacks on 4 nodes (group sizes 2+3 and 3+3, a zero-variance edge, effects of either sign) and one on 5 nodes with two components of different sizes',
                'threshold symbolic in [0, 8], kept 1e-6 away from every t statistic (routine and oracle round differently); k in {1, 2}; subject relabellings: a seeded list of permutations per draw (symbolic choice among them); unpaired test only',
-               'paired=True re-draws sign flips from uniform variates inside a square root: not encoded']
+               'paired=True: one 3+3 stack without zero-variance differences; each uniform variate behind a sign flip is a symbolic choice from {1/4, 3/4} (thorough: also 1/2, i.e. sign 0)']
 BOUNDS = {'quick': dict(nodes='4 (two stacks), 5 (one stack)', subjects='2+3, 3+3', k='1..2', relabellings='identity + 5 seeded per draw'),
           'thorough': dict(nodes='4 (two stacks), 5 (one stack)', subjects='2+3, 3+3', k='1..2', relabellings='identity + 11 seeded per draw')}
 OPTS = {'quick': dict(witnesses_per_case=2, budget_s=600), 'thorough': dict(witnesses_per_case=2, budget_s=2000)}
@@ -34,6 +34,10 @@ DATA['c33n5'] = dict(n=5, x=[[9, 8, 9], [2, 2, 3], [1, 2, 1], [2, 1, 2], [8, 9, 
                      y=[[1, 2, 1], [2, 3, 2], [1, 1, 2], [2, 2, 1], [2, 1, 1], [2, 2, 3], [1, 2, 1], [2, 3, 2], [2, 1, 2], [3, 3, 4]])
 
 
+# paired design (3 subjects measured twice): no connection has all |differences| equal, so no sign flip gives zero variance
+DATA['p33'] = dict(paired=True, x=[[6, 7, 9], [2, 5, 1], [8, 6, 9], [3, 3, 4], [1, 2, 2], [4, 4, 4]], y=[[1, 3, 2], [1, 2, 4], [2, 1, 1], [3, 1, 5], [6, 4, 9], [3, 5, 1]])
+
+
 def edges_of(n): return [(i, j) for i in range(n) for j in range(i + 1, n)]
 
 
@@ -42,6 +46,12 @@ def cases(tier, seed):
     rnd = random.Random(seed)
     cs = []
     for dn, d in DATA.items():
+        if d.get('paired'):
+            unif = ['1/4', '3/4'] + (['1/2'] if tier == 'thorough' else [])
+            for tail in ('both', 'left', 'right'):
+                for k in (1, 2):
+                    cs.append(dict(name='nbs_bct/%s/paired/%s/k%d' % (dn, tail, k), fn='nbs_bct', data=dn, tail=tail, k=k, paired=True, unif=unif, weight=20 * k, shard_depth=6 if k == 2 else None))
+            continue
         ns = len(d['x'][0]) + len(d['y'][0])
         allp = list(itertools.permutations(range(ns)))
         perms = [list(range(ns))] + [list(p) for p in rnd.sample(allp, 5 if tier != 'thorough' else 11)]
@@ -60,6 +70,14 @@ def tstat(x, y, tail):
     den = s * math.sqrt(1 / n1 + 1 / n2)
     if den == 0: return 0.0
     t = (m1 - m2) / den
+    return abs(t) if tail == 'both' else (-t if tail == 'left' else t)
+
+
+def tstat_paired(x, y, tail):
+    dd = [a - b for a, b in zip(x, y)]; n = len(dd)
+    m = sum(dd) / n
+    sd = math.sqrt(sum((v - m) ** 2 for v in dd) / (n - 1))
+    t = m / (sd / math.sqrt(n))
     return abs(t) if tail == 'both' else (-t if tail == 'left' else t)
 
 
@@ -86,7 +104,9 @@ def body(case, M):
         return M.array(a, 'f')
     X, Y = stack(d['x'], nx), stack(d['y'], ny)
     thr = M.real('thresh', lo=0, hi=8)
-    rng = M.rng(budget=k + 1, fork_perm=True, perm_subset=case['perms'])
+    paired = bool(case.get('paired'))
+    rng = M.rng(budget=k + 1, unif_subset=[F(u) for u in case['unif']]) if paired else M.rng(budget=k + 1, fork_perm=True, perm_subset=case['perms'])
+    tstat = tstat_paired if paired else globals()['tstat']
     def clear(stats):
         # the routine and the oracle compute the statistic in different operation orders (1e-15 apart): keep the threshold
         # at least 1e-6 away from every statistic so both classify every connection alike
@@ -95,7 +115,7 @@ def body(case, M):
             M.assume(sc.ge(sc.sabs(sc.sub(thr, tf)), F(1, 10**6)))
     BCTParamError = M.mod('misc').BCTParamError
     try:
-        pvals, adj, null = M.mod('nbs').nbs_bct(X, Y, thr, k=k, tail=tail, seed=rng)
+        pvals, adj, null = M.mod('nbs').nbs_bct(X, Y, thr, k=k, tail=tail, paired=paired, seed=rng)
     except BCTParamError as e:
         # "Unsuitable threshold" (nothing supra-threshold) / "degenerate": must coincide with the oracle seeing no component
         ts = [tstat(d['x'][e], d['y'][e], tail) for e in range(ne)]
@@ -124,9 +144,14 @@ def body(case, M):
     M.oblige('ret:k_null_values', len(nl) == k)
     # null values: largest component (in connections) under each relabelling actually drawn
     allv = [d['x'][e] + d['y'][e] for e in range(ne)]
-    for u, dr in enumerate([dd for dd in rng.draws if dd[0] == 'permutation'][:k] if M.symbolic else rng.script[:k]):
-        p = [M.int_value(v) for v in dr[2]]
-        tsp = [tstat([allv[e][q] for q in p[:nx]], [allv[e][q] for q in p[nx:]], tail) for e in range(ne)]
+    if paired:
+        us = [dd[1] for dd in (rng.draws if M.symbolic else rng.script) if dd[0] == 'random_sample']
+        drawn = [('signs', [(1 if F(1, 2) - F(v) > 0 else (-1 if F(1, 2) - F(v) < 0 else 0)) for v in us[u * nx:(u + 1) * nx]]) for u in range(k)]
+    else:
+        drawn = [('perm', [M.int_value(v) for v in dr[2]]) for dr in ([dd for dd in rng.draws if dd[0] == 'permutation'][:k] if M.symbolic else rng.script[:k])]
+    for u, (kind, p) in enumerate(drawn):
+        if kind == 'signs': tsp = [tstat([sg * v for sg, v in zip(p, d['x'][e])], [sg * v for sg, v in zip(p, d['y'][e])], tail) for e in range(ne)]
+        else: tsp = [tstat([allv[e][q] for q in p[:nx]], [allv[e][q] for q in p[nx:]], tail) for e in range(ne)]
         clear(tsp)
         ab = [bool(M.truth_value(sc.gt(F(t).limit_denominator(10**12) if M.symbolic else t, thr))) for t in tsp]
         onp = [EDGES[e] for e in range(ne) if ab[e]]
